@@ -1,0 +1,56 @@
+//go:build verif
+
+package internal
+
+import (
+	"log/slog"
+
+	"github.com/oxia-db/oxia/common/concurrent"
+)
+
+// VerifShardMap exposes the client-side shard map (update + routing by hash code)
+// to the verification harness without a network connection.
+type VerifShardMap struct {
+	sm *shardManagerImpl
+}
+
+func NewVerifShardMap() *VerifShardMap {
+	return &VerifShardMap{sm: &shardManagerImpl{
+		shards:    make(map[int64]Shard),
+		updatedWg: concurrent.NewWaitGroup(1),
+		logger:    slog.Default(),
+	}}
+}
+
+func (v *VerifShardMap) Update(updates []Shard) { v.sm.update(updates) }
+
+// Route runs shardManagerImpl.Get with a strategy whose hash function returns code.
+func (v *VerifShardMap) Route(code uint32) (id int64, panicked bool) {
+	defer func() {
+		if r := recover(); r != nil {
+			panicked = true
+		}
+	}()
+	v.sm.shardStrategy = &shardStrategyImpl{hashFunc: func(string) uint32 { return code }}
+	return v.sm.Get(""), false
+}
+
+// Matching returns every shard whose predicate accepts code (Get returns the first in map order).
+func (v *VerifShardMap) Matching(code uint32) []int64 {
+	pred := (&shardStrategyImpl{hashFunc: func(string) uint32 { return code }}).Get("")
+	var res []int64
+	for _, s := range v.sm.shards {
+		if pred(s) {
+			res = append(res, s.Id)
+		}
+	}
+	return res
+}
+
+func (v *VerifShardMap) Shards() []Shard {
+	res := make([]Shard, 0, len(v.sm.shards))
+	for _, s := range v.sm.shards {
+		res = append(res, s)
+	}
+	return res
+}
